@@ -742,8 +742,12 @@ OBJ_METHODS[("WarnCtx", "__exit__")] = models._warnctx_exit
 # paths with symbolic components --------------------------------------------------
 @method("SymPath", "with_suffix")
 def _sp_with_suffix(interp, p, suffix):
-    return interp.ctx.obj("SymPath", {"parent": p.fields["parent"], "name": p.fields["name"],
-                                      "suffix": suffix, "of": p})
+    o = interp.ctx.obj("SymPath", {"parent": p.fields["parent"], "name": p.fields["name"],
+                                   "suffix": suffix, "of": p})
+    hook = getattr(getattr(getattr(interp, "cur_frame", None), "unit", None), "on_sympath", None)
+    if hook is not None:
+        hook(interp.ctx, o)
+    return o
 
 
 @method("SymPath", "rename")
